@@ -4242,12 +4242,27 @@ func (ff *FuncFacts) assumeEither(st *State, a, b ast.Expr, pol bool) *State {
 // Exponential in the number of branches after `from`; past the budget the
 // join-based PathSearch (which can only find more paths) answers.
 func (ff *FuncFacts) PathSearchPS(from ast.Node, init int, step func(n ast.Node, st *State, flag int) (int, bool), blocked func(f *Fact) bool, bad func(flag int) bool) (token.Pos, bool) {
+	return ff.pathSearchPS(from, init, step, blocked, bad, nil)
+}
+
+// PathSearchPSX is PathSearchPS with the exit test given the state the path
+// arrives with (its own facts, including those of the last edge taken).  When
+// the exploration exceeds its budget the answer is "found" (undecided counts
+// as a violation).
+func (ff *FuncFacts) PathSearchPSX(from ast.Node, init int, step func(n ast.Node, st *State, flag int) (int, bool), blocked func(f *Fact) bool, badSt func(flag int, st *State) bool) (token.Pos, bool) {
+	return ff.pathSearchPS(from, init, step, blocked, nil, badSt)
+}
+
+func (ff *FuncFacts) pathSearchPS(from ast.Node, init int, step func(n ast.Node, st *State, flag int) (int, bool), blocked func(f *Fact) bool, bad func(flag int) bool, badSt func(flag int, st *State) bool) (token.Pos, bool) {
 	fb, fi := ff.blockOf(from)
 	if fb == nil {
 		return token.NoPos, false
 	}
 	start, ok := ff.at[from]
 	if !ok || start == nil {
+		if bad == nil {
+			return from.Pos(), true
+		}
 		return ff.PathSearch(from, init, step, blocked, bad)
 	}
 	// state after the from node's own block prefix is not known exactly: begin with
@@ -4277,7 +4292,7 @@ func (ff *FuncFacts) PathSearchPS(from ast.Node, init int, step func(n ast.Node,
 			st = ff.node(n, st, false)
 		}
 		if len(b.Succs) == 0 {
-			if !bad(flag) {
+			if (bad != nil && !bad(flag)) || (badSt != nil && !badSt(flag, st)) {
 				return token.NoPos, false, true
 			}
 			pos := ff.fs.Body().Rbrace
@@ -4336,6 +4351,9 @@ func (ff *FuncFacts) PathSearchPS(from ast.Node, init int, step func(n ast.Node,
 	st := ff.node(fb.Nodes[fi], start, false)
 	pos, found, complete := walk(fb, fi+1, init, st, true)
 	if !complete {
+		if bad == nil {
+			return from.Pos(), true
+		}
 		return ff.PathSearch(from, init, step, blocked, bad)
 	}
 	return pos, found
